@@ -788,7 +788,7 @@ def op_cases(tier):
         for mass in masses(tier):
             for eps, L in OP_EL:
                 for zi in (0, 1):
-                    for mode in ("init", "replaced", "tuned"):
+                    for mode in ("init", "replaced", "tuned", "loaded"):
                         out.append({"kind": "op", "target": name, "mass": mass, "eps": eps, "L": L,
                                     "z": zi, "mode": mode, "fail": None})
                     # the second of two steps of the same operator (first one accepted / rejected)
@@ -879,13 +879,24 @@ def run_op(case, tab, seed):
             joint_ref = "joint.inj"
         else:
             normals = [big_answer(M)] * n_fail + normals
-    M_init = mass_alt(d, case["mass"]) if case["mode"] == "replaced" else M
+    M_init = mass_alt(d, case["mass"]) if case["mode"] in ("replaced", "loaded") else M
     tt.load(operator_spec(ids, eps, L, M_init, joint=joint_ref, integrator="lf.rec"), dic)
     op = dic["hmc.operator"]
     if case["mode"] == "replaced":
         dic["hmc.mass.matrix"].tensor = torch.tensor(np.asarray(M))
     elif case["mode"] == "tuned":
         op.set_adaptable_parameter(math.log(eps))
+    elif case["mode"] == "loaded":
+        # the state of an operator that has mass matrix M, written and read as a checkpoint, loaded into
+        # an operator built with another mass matrix (a resumed run after the mass matrix was adapted)
+        from torchtree.core.parameter_encoder import ParameterEncoder
+        from torchtree.core.utils import TensorDecoder
+
+        spec_d, ids_d = target_spec(kind, d, split, q0)
+        donor = tt.load(spec_d + [{"id": "lf", "type": "LeapfrogIntegrator", "steps": int(L), "step_size": float(eps)}])
+        tt.load(operator_spec(ids_d, eps, L, M, joint="joint", integrator="lf"), donor)
+        state = json.loads(json.dumps(donor["hmc.operator"].state_dict(), cls=ParameterEncoder), cls=TensorDecoder)
+        op.load_state_dict(state)
     script = Script(normals)
     prelude = case.get("prelude")
     try:
@@ -1141,7 +1152,7 @@ def run(run):
         nm = len(masses(tier))
         closed_form += nm * len(EPS) * len(STEPS) * len(corner_ids(d, tier))          # traj, constructed
         closed_form += (nm if tier == "thorough" else 2) * len(EPS) * len(STEPS) * 3   # traj, other ways
-        closed_form += nm * len(OP_EL) * 2 * 5                                         # op, no failure
+        closed_form += nm * len(OP_EL) * 2 * 6                                         # op, no failure
         closed_form += 2 * ((3 + 3) * 2 + 2) + (2 * 5 if kind == "gamma" else 0)       # op, failures
         closed_form += 3 * len(MCMC_EL) * 2                                            # mcmc
     if closed_form != len(cases) or len({jdump(c) for c in cases}) != len(cases):
@@ -1213,7 +1224,7 @@ def run(run):
         "rule": "traj: every target x mass(8; quick 6) x eps(5) x L(6) x corner point with the integrator constructed "
                 "with (eps, L), plus every target x mass x eps x L x {step size assigned, state_dict loaded, "
                 "tuned through the operator} on one rotating corner; op: every target x mass(8; quick 6) x (eps,L)(4) x "
-                "first answer(2) x {as constructed, mass matrix replaced, step size tuned, second step after an accepted / rejected first step} + every NaN position "
+                "first answer(2) x {as constructed, mass matrix replaced, step size tuned, state loaded from a checkpoint of an operator with another mass matrix, second step after an accepted / rejected first step} + every NaN position "
                 "of a trial x {1,2,10} failing trials (+ natural overflow failures on the gamma targets); mcmc: "
                 "every target x mass(3) x (eps,L)(3) x answer(2) x uniform just below/above the oracle "
                 "acceptance probability.  non-trivial = regular-regime elements with pairwise different energy "
